@@ -437,13 +437,13 @@ func corrC20Time(r *Run) *c20Time {
 	r.Import("Model.SmppTime")
 	c := &c20Time{r: r, caseLeft: map[string]int{}, advLeft: map[string]int{}}
 	for _, op := range []string{"timeparse", "timefmt", "durparse", "durfmt"} {
-		c.advLeft[op] = r.N(200, 6000)
+		c.advLeft[op] = r.N(200, 2000)
 	}
 	rng := r.Rng
 	// kernel-case budgets (each op line is ALSO a direct test; in the thorough tier every line additionally
 	// goes through the extracted model, the kernel cases being the vm_compute slice all three must agree on)
-	c.caseLeft["timeparse"] = r.N(2600, 40000)
-	c.caseLeft["timefmt"] = r.N(2600, 45000)
+	c.caseLeft["timeparse"] = r.N(2600, 30000)
+	c.caseLeft["timefmt"] = r.N(2600, 34000)
 	c.caseLeft["durfmt"] = r.N(1000, 12000)
 	c.caseLeft["durparse"] = r.N(400, 5000)
 
@@ -675,7 +675,7 @@ func (c *c20Time) receiverHistories(anyValid string) {
 		return fmt.Sprintf("%02d%02d%02d%02d%02d%02d%d00R", rng.Intn(100), rng.Intn(12), rng.Intn(30), rng.Intn(24), rng.Intn(60), rng.Intn(60), rng.Intn(10))
 	}
 	rejected := []string{"000101000000000", "020610233429000R", "0206102334290000+", "x", "991231235959948*"}
-	n := r.N(300, 4000)
+	n := r.N(300, 2000)
 	for i := 0; i < n; i++ {
 		// ---- pdu.Time
 		var tm pdu.Time
